@@ -100,6 +100,40 @@ def check_program(ctx, line, sp, events, profile, stage):
             except Exception as ex:
                 ctx.violation(dict(sig0, clause='call-raised', mode='in-place', exc=type(ex).__name__),
                               dict(detail0, x=x_abs, exc=str(ex)[:200]))
+    # --- extension: expr.inverse (where ODL offers one) must invert expr; decided by TLC as Eval(prog, inverse(x)) = x
+    if line['lin'] and line['dom'] == 'V' and line['ran'] == 'V' and not sp.big:
+        try:
+            inv = op.inverse
+        except Exception:
+            inv = None          # no inverse offered (or singular): nothing is demanded
+        if inv is not None:
+            for x_abs in line['pts']:
+                try:
+                    y = inv(sp.point('V', x_abs))
+                    arr = np.asarray(y.asarray()).ravel()
+                    if not np.all(np.isfinite(arr)):
+                        break
+                    val = []
+                    ok = True
+                    for z in arr:
+                        z = complex(z)
+                        parts = []
+                        for c in (z.real, z.imag):
+                            from fractions import Fraction
+                            fr = Fraction(c).limit_denominator(720)
+                            if abs(float(fr) - c) > 1e-9 * max(1.0, abs(c)) or abs(fr.numerator) > 10 ** 6:
+                                ok = False
+                            parts.append([fr.numerator, fr.denominator])
+                        val.append(parts)
+                    if ok:
+                        events.append({'kind': 'inv', 'prog': e, 'x': x_abs, 'val': val, 'd': [], 'err': '', 'mode': 'inverse',
+                                       'profile': profile})
+                        ctx.count([e, 'inv', x_abs, profile], nontriv)
+                except (ZeroDivisionError, NotImplementedError, np.linalg.LinAlgError):
+                    break
+                except Exception as ex:
+                    ctx.violation(dict(sig0, clause='inverse-call-raised', exc=type(ex).__name__), dict(detail0, x=x_abs))
+                    break
     if len(ctx.samples) < 4 and nontriv and U.n_comb(e) >= 2 and hash(json.dumps(e, sort_keys=True)) % 53 == 0:
         ctx.sample({'program': U.shape_of(e), 'abstract': e, 'points': line['pts'], 'expected': line['vals'],
                     'profile': profile, 'entries': sp.n, 'real_class': type(op).__name__})
